@@ -470,6 +470,9 @@ pub enum Op {
     /// An attacker's copy of the next datagram the client emits reaches the server from the given
     /// (never answering) address just ahead of the original: the server starts validating that path
     SpoofedCopy(std::net::SocketAddr),
+    /// The same with a large datagram: the client application sends a 1000-byte application datagram
+    /// and the datagram carrying it is copied
+    SpoofedCopyBig(std::net::SocketAddr),
     /// A short-header datagram of the given length for a connection ID nobody has, from a foreign
     /// address, reaches the node's endpoint (it answers with a stateless reset if long enough)
     Unroutable(usize, usize),
@@ -502,12 +505,20 @@ pub fn apply_op(p: &mut StdPair, op: &Op) {
             p.w.max_datagrams = *n;
             return;
         }
-        Op::SpoofedCopy(fake) => {
+        Op::SpoofedCopy(fake) | Op::SpoofedCopyBig(fake) => {
             use crate::sim::Rec;
             let before = p.w.recs.len();
-            apply_op(p, &Op::Ping(CLIENT));
+            let big = matches!(op, Op::SpoofedCopyBig(_));
+            if big {
+                if let Some(ch) = node_conn(p, CLIENT) {
+                    let _ = p.w.nodes[CLIENT].conns.get_mut(&ch).unwrap().conn.datagrams().send(bytes::Bytes::from(vec![0x5a; 1000]), true);
+                    p.w.settle_conn(CLIENT, ch);
+                }
+            } else {
+                apply_op(p, &Op::Ping(CLIENT));
+            }
             let copy = p.w.recs[before..].iter().find_map(|r| match r {
-                Rec::Emit { node, data, idx, .. } if *node == CLIENT => Some((data.clone(), *idx)),
+                Rec::Emit { node, data, idx, .. } if *node == CLIENT && (!big || data.len() >= 900) => Some((data.clone(), *idx)),
                 _ => None,
             });
             if let Some((data, idx)) = copy {
